@@ -29,7 +29,7 @@ META = {
         'truncated and min() points; fixed and nominal intervals; exclusion '
         'points and exclusion sequences; Gregorian/360/365/366-day '
         'calendars; 8 time zones; expanded years) are built with the real '
-        'ISO8601Sequence inside a context window of at most ~70 points. '
+        'ISO8601Sequence inside a context window of at most 45 points. '
         'is_valid, is_on_sequence, get_next_point, '
         'get_next_point_on_sequence, get_prev_point, '
         'get_nearest_prev_point, get_first_point, get_start_point and '
@@ -42,7 +42,7 @@ META = {
     'level_note': 'metomi.isodatetime (TimeRecurrence iteration) and the own '
                   'calendar arithmetic of vlib/models/c18_cal.py are trusted.',
     'design_ref': 'DESIGN.md §5 C17',
-    'budget': {'quick': 120, 'thorough': 1200},
+    'budget': {'quick': 240, 'thorough': 2400},
 }
 RULE = ('case = (calendar, time zone, expanded-year digits, dump format, '
         'initial point, final point, recurrence expression with exclusions); '
@@ -51,7 +51,7 @@ RULE = ('case = (calendar, time zone, expanded-year digits, dump format, '
 ASSUMPTIONS = [
     'the ordered list is the iteration of the metomi.isodatetime '
     'TimeRecurrence held by a separate, never queried ISO8601Sequence '
-    '(unbounded: first 70 points), minus exclusions decided by own '
+    '(unbounded: first 45 points), minus exclusions decided by own '
     'predicates on instants; for expressions with a clear-cut documented '
     'meaning (fixed-length steps, or nominal steps on days 1-28) that list '
     'is additionally compared with own arithmetic from the expression',
@@ -67,15 +67,28 @@ ASSUMPTIONS = [
     'iso8601.init() is called once per case (re-initialising with another '
     'time zone in one process is outside the quantifier)',
     'points are at minute resolution (the default cycle point format)',
+    'nominal (month / year) steps are only generated when every point of '
+    'the case is spelled in the cycle point time zone, as Cylc does after '
+    'standardising (adding a month to the same instant held in another zone '
+    'can land on another day; which zone "iterating the recurrence" means '
+    'is then not pinned down by the statement); for the same reason queries '
+    'spelled in a foreign zone are only put to fixed-step recurrences, and '
+    'week-date truncated points (W-DThh) are not combined with month/year '
+    'steps (isodatetime steps those in week-date space)',
+    'R/START/END with END <= START, and any expression the parser rejects '
+    'and the model does not cover, are counted discards',
+    'a bounded recurrence whose exclusions remove every point is kept: '
+    'start/stop/next must then be None and membership False',
 ]
 MIN = {
-    'seqs_checked': 300, 'queries': 20000, 'answers_compared': 60000,
-    'with_exclusion_point': 40, 'with_exclusion_seq': 40,
-    'exclusion_removed_points': 40, 'model_list_compared': 150,
-    'warm_history_over_100': 3, 'nominal_step': 20, 'truncated_point': 40,
-    'relative_point': 40, 'unbounded': 50, 'end_anchored': 40,
-    'cal:gregorian': 20, 'cal:360day': 20, 'cal:365day': 20,
-    'cal:366day': 20,
+    'seqs_checked': 500, 'queries': 15000, 'answers_compared': 45000,
+    'with_exclusion_point': 100, 'with_exclusion_seq': 100,
+    'exclusion_removed_points': 150, 'model_list_compared': 400,
+    'warm_history_over_100': 10, 'nominal_step': 40, 'truncated_point': 100,
+    'relative_point': 60, 'unbounded': 100, 'end_anchored': 100,
+    'tail_excluded': 30, 'head_excluded': 30,
+    'cal:gregorian': 80, 'cal:360day': 80, 'cal:365day': 80,
+    'cal:366day': 80,
 }
 CASE_TIMEOUT = 60
 
